@@ -121,7 +121,7 @@ def step (s : St) (args : List String) (impl : String) : St × Out :=
       else
         let rules := s.staged.map (·.2)
         let newFw := (Fw.new s.my d tcp udp dflt).addRules rules
-        let sys := s.sys.reload newFw
+        let sys := s.sys.reloadFirewall true (some newFw)
         let wrapped := sys.fw.rulesVersion == 0
         -- spec: flows survive a reload (they are revalidated lazily); the version wrap forgets them (F16)
         let live := s.flows.filter (fun f => decide (s.sys.now < f.expires))
